@@ -33,15 +33,17 @@ def kill_matrix():
 
 def seeded():
     out = ["| defect | what it breaks | needs, to manifest | confirmed (suite+doctests pass, demo fails with / passes without) | check, quick tier | note |", "|---|---|---|---|---|---|"]
-    n = c = 0
+    n = c = ok = 0
     for mf in sorted(glob.glob(os.path.join(VERIF, "seeded", "*", "meta.json"))):
         m = json.load(open(mf))
         r = m.get("checks", {}).get("quick", {})
-        v = "; ".join(f"{k}: {x['verdict']}" for k, x in r.items())
+        conf = bool(m["verification"].get("confirmed")) and not m.get("superseded")
+        v = "; ".join(f"{k}: {x['verdict']}" for k, x in r.items()) if conf else "not run (superseded)"
         n += 1
-        c += any(x["verdict"] == "caught" for x in r.values())
-        out.append(f"| {m['name']} | {m.get('breaks', '')} | {m.get('needs', '')} | {'yes' if m['verification'].get('confirmed') else 'NO'} | {v} | {m.get('history', '')} |")
-    return f"{n} independent defects, {c} caught by the property's own check (after the strengthening noted in the last column).\n\n" + "\n".join(out) + "\n"
+        ok += conf
+        c += conf and any(x["verdict"] == "caught" for x in r.values())
+        out.append(f"| {m['name']} | {m.get('breaks', '')} | {m.get('needs', '')} | {'yes' if conf else 'no longer (superseded by a repository fix)'} | {v} | {m.get('history', '')} |")
+    return f"{n} independent defects filed, {ok} of them defects of the current tree, {c} of those caught by the property's own check (after the strengthening noted in the last column).\n\n" + "\n".join(out) + "\n"
 
 
 def main():
